@@ -146,6 +146,12 @@ func cmdCheck(argv []string) int {
 		if clauseTags(fc)[*prop] {
 			unitKeys[key] = true
 		}
+		// implementations of a type contract that carries clauses of this property
+		for _, im := range fc.Implements {
+			if tfc, ok := p.CS.Types[im]; ok && clauseTags(tfc)[*prop] {
+				unitKeys[key] = true
+			}
+		}
 	}
 	for _, u := range ps.Units {
 		found := false
